@@ -133,6 +133,13 @@ def run_lockstep(ctx, prog, rule="R-LOCKSTEP", files=("Numbers/", "Json/", "MsgP
             nloops += 1
             modat = {}
             for (mi, d, name, tk, op) in mods:
+                if tk == "bool" and d not in cursors:
+                    continue        # a flag holds nothing of the character's value
+                if op == "=" and d not in cursors:
+                    rhs = fn.s(mi)["c"][1]
+                    if fn.const(rhs) is not None or "cv" in fn.s(fn.strip(rhs, casts=True)) or \
+                            fn.s(fn.strip(rhs, casts=True))["k"] in ("CXXBoolLiteralExpr", "IntegerLiteral", "CharacterLiteral"):
+                        continue    # a flag set to a constant holds nothing of the character
                 modat[mi] = (d, name, op)
             blocks = fn.blocks()
             pos = fn.pos()
